@@ -1,5 +1,6 @@
 import Octo.Drv.SqlCodec
 import Octo.Spec.JoinSem
+import Octo.Drv.C19
 /-!
   C02 driver — JOIN queries through the real binary.
     jn <mode> <opt> <fmt> <kinds> DB <n> (T <ncols> <nrows> <v>…)×n Q <from> <whr> <proj> SQL <hex>
@@ -108,6 +109,8 @@ def judgeFlags (op : JoinOp) (out : List String) : String :=
   | _ => s!"bad no-flags-output {String.intercalate " " out}"
 
 def model (toks : List String) : String :=
+  -- the join nodes under a chosen interleaving (shared with C19)
+  if toks.head? == some "sj" || toks.head? == some "oj" then Octo.Drv.C19.model toks else
   match parseJoinOp toks with
   | none => "bad-op"
   | some op =>
@@ -121,6 +124,7 @@ def model (toks : List String) : String :=
 def rejected (op : JoinOp) : Bool := (planQ op.db op.query).isNone
 
 def judge (toks : List String) (out : List String) : String :=
+  if toks.head? == some "sj" || toks.head? == some "oj" then Octo.Drv.C19.judge toks out else
   match parseJoinOp toks with
   | none => "bad unparsable-op"
   | some op =>
